@@ -335,6 +335,48 @@ func structEdits(nb int) []StructEdit {
 		})
 		add(fmt.Sprintf("footer.backward%+d", d), true, func(m *xzModel) bool { m.Backward = d; return true })
 	}
+	// compensating edits of two index records (deviation bound 2 on the index): every total a reader
+	// could compare instead of the records themselves (record count, sum of unpadded sizes, sum of
+	// uncompressed sizes, index size, backward size) stays the same
+	for bi := 0; bi < nb; bi++ {
+		for bj := bi + 1; bj < nb; bj++ {
+			bi, bj := bi, bj
+			for _, d := range []int64{-4, -1, 1, 4} {
+				d := d
+				add(fmt.Sprintf("index.rec%d.unpadded%+d,rec%d.unpadded%+d(sum unchanged)", bi, d, bj, -d), true, func(m *xzModel) bool {
+					m.RecDelta = map[int][2]int64{bi: {d, 0}, bj: {-d, 0}}
+					return true
+				})
+			}
+			for _, d := range []int64{-1, 1} {
+				d := d
+				add(fmt.Sprintf("index.rec%d.uncompressed%+d,rec%d.uncompressed%+d(sum unchanged)", bi, d, bj, -d), true, func(m *xzModel) bool {
+					for _, k := range []int{bi, bj} {
+						lr := ref.DecodeLZMA2(m.Blocks[k].Data, 0xFFFFFFFF, false)
+						if len(lr.Out) == 0 {
+							return false
+						}
+					}
+					m.RecDelta = map[int][2]int64{bi: {0, d}, bj: {0, -d}}
+					return true
+				})
+			}
+			add(fmt.Sprintf("index.swap-rec%d-rec%d", bi, bj), true, func(m *xzModel) bool {
+				var recs []xzRecM
+				for _, b := range m.Blocks {
+					h := b.header()
+					lr := ref.DecodeLZMA2(b.Data, 0xFFFFFFFF, false)
+					recs = append(recs, xzRecM{uint64(len(h) + len(b.Data) + len(b.Check)), uint64(len(lr.Out))})
+				}
+				if recs[bi] == recs[bj] {
+					return false
+				}
+				recs[bi], recs[bj] = recs[bj], recs[bi]
+				m.Recs = recs
+				return true
+			})
+		}
+	}
 	add("index.drop-last-record(count consistent)", true, func(m *xzModel) bool {
 		if len(m.Blocks) < 1 {
 			return false
